@@ -130,6 +130,11 @@ class Bytes:
         self.b = b
 
 
+class Variant:
+    def __init__(self, name, value):
+        self.name, self.value = name, value
+
+
 class IFloat:
     """an f64 known to hold an integral value (day counts): carried as an Int term"""
     def __init__(self, t):
@@ -344,6 +349,8 @@ class Ctx:
             nm = self.sym(name)
             self.inputs[nm] = ("Bool", None, None)
             return T(nm, "Bool")
+        if ty in ("f64", "f32"):
+            return Opaque("float")
         if ty.startswith("&"):
             # reference to an unknown record
             r = Rec(self, name + "*", ty.lstrip("&").replace("mut ", "").strip())
@@ -580,6 +587,8 @@ class Ctx:
                     v = self.read_place(v.frame, v.local, v.proj)
                 elif isinstance(v, tuple) and v[0] == "refrec":
                     v = v[1]
+                elif isinstance(v, Opaque):
+                    v = Opaque("deref:" + v.name)
                 else:
                     raise Unsupported("deref of non-reference")
             else:
@@ -614,6 +623,8 @@ class Ctx:
             if m and m.group(1) in INT_TYPES:
                 lo, hi = INT_TYPES[m.group(1)]
                 return I(lo if m.group(2) == "MIN" else hi)
+            if re.match(r"^-?[0-9][0-9.eE+-]*f(64|32)$", c) or c in ("f64::NAN", "f64::INFINITY"):
+                return Opaque("float")
             m = re.match(r'^b"(.*)"$', c)
             if m:
                 return Bytes(decode_bytes(m.group(1)))
@@ -629,9 +640,13 @@ class Ctx:
                                 "AddWithOverflow", "SubWithOverflow", "MulWithOverflow", "Not", "Neg", "AddUnchecked", "SubUnchecked"):
             op = m.group(1)
             ops = [self.operand(fr, a) for a in split_top(m.group(2))]
-            for o in ops:
-                if not isinstance(o, T):
-                    raise Unsupported("non-scalar operand in " + rv)
+            if any(not isinstance(o, T) for o in ops):
+                if all(isinstance(o, (T, Opaque, IFloat)) for o in ops) and any(isinstance(o, (Opaque, IFloat)) for o in ops):
+                    if op in ("Eq", "Ne", "Lt", "Le", "Gt", "Ge"):
+                        # comparison of floating-point values we do not model: an arbitrary outcome (environment)
+                        return self.fresh_value("float_cmp", "bool")
+                    return Opaque("float")
+                raise Unsupported("non-scalar operand in " + rv)
             if op == "Not":
                 if ops[0].sort != "Bool":
                     raise Unsupported("bitwise Not on integer: " + rv)
@@ -681,6 +696,9 @@ class Ctx:
             v = self.operand(fr, m.group(1))
             if isinstance(v, IFloat):
                 return v.t
+            if isinstance(v, Opaque):
+                # value of a float expression we do not model: an arbitrary integer of the target type
+                return self.fresh_value("float_to_int", m.group(2))
             raise Unsupported("float to int cast of a non-integral float: " + rv)
         m = re.match(r"^(.*) as (\w+) \(IntToFloat\)$", rv)
         if m:
@@ -709,6 +727,12 @@ class Ctx:
             return Ref(fr, l, proj)
         if rv.startswith("copy ") or rv.startswith("move ") or rv.startswith("const "):
             return self.operand(fr, rv)
+        m = re.match(r"^(\w+)::<.*>::(\w+)\((.*)\)$", rv)
+        if m and m.group(1) in ("Result", "Option"):
+            return Variant(m.group(2), self.operand(fr, m.group(3)) if m.group(3).strip() else None)
+        m = re.match(r"^(\w+)::<.*>::(None)$", rv)
+        if m:
+            return Variant("None", None)
         m = re.match(r"^([A-Za-z_][\w:<>]*) \{ (.*) \}$", rv)
         if m:
             # struct aggregate with named fields
